@@ -243,13 +243,13 @@ mutual
 def parseInit : Nat → List Tok → Option (PInit × List Tok)
   | 0, _ => none
   | f + 1, ts =>
-    match ts with
-    | .p .lbrace :: .p .rbrace :: r => some (.braces [], r)
-    | .p .lbrace :: r =>
-      match parseInits f r with
-      | some (xs, r') => some (.braces xs, r')
-      | none => none
-    | _ =>
+    if ts.head? = some (.p .lbrace) then
+      if ts.tail.head? = some (.p .rbrace) then some (.braces [], ts.tail.tail)
+      else
+        match parseInits f ts.tail with
+        | some (xs, r') => some (.braces xs, r')
+        | none => none
+    else
       match parseCond (fuelFor ts) ts with
       | some (e, r) => some (.e e, r)
       | none => none
@@ -258,12 +258,14 @@ def parseInits : Nat → List Tok → Option (List PInit × List Tok)
   | 0, _ => none
   | f + 1, ts =>
     match parseInit f ts with
-    | some (x, .p .comma :: r) =>
-      match parseInits f r with
-      | some (xs, r') => some (x :: xs, r')
-      | none => none
-    | some (x, .p .rbrace :: r) => some ([x], r)
-    | _ => none
+    | none => none
+    | some (x, r) =>
+      if r.head? = some (.p .comma) then
+        match parseInits f r.tail with
+        | some (xs, r') => some (x :: xs, r')
+        | none => none
+      else if r.head? = some (.p .rbrace) then some ([x], r.tail)
+      else none
 end
 
 /-- does the token list start a declaration (`specifier… name`)? -/
@@ -290,18 +292,20 @@ def parseAssignC (ts : List Tok) : Option (PS × List Tok) :=
 
 /-- declaration: specifiers/qualifiers, declarator with constant dimensions, optional initialiser -/
 def parseDeclC (f : Nat) (ts : List Tok) : Option (PS × List Tok) :=
-  let (names, r1) := takeIds ts
+  let names := (takeIds ts).1
+  let r1 := (takeIds ts).2
   let name := names.getLast?.getD ""
   let quals := names.dropLast
-  if quals.all (fun q => cTypeWords.contains q) ∧ ¬ cKeywords.contains name then
-    let (dims, r2) := parseDims r1
-    match r2 with
-    | .p .semi :: r3 => some (.decl quals name dims none, r3)
-    | .p .assign :: r3 =>
-      match parseInit f r3 with
-      | some (x, .p .semi :: r4) => some (.decl quals name dims (some x), r4)
-      | _ => none
-    | _ => none
+  if quals.all (fun q => cTypeWords.contains q) && !cKeywords.contains name then
+    let dims := (parseDims r1).1
+    let r2 := (parseDims r1).2
+    if r2.head? = some (.p .semi) then some (.decl quals name dims none, r2.tail)
+    else if r2.head? = some (.p .assign) then
+      match parseInit f r2.tail with
+      | none => none
+      | some (x, r4) =>
+        if r4.head? = some (.p .semi) then some (.decl quals name dims (some x), r4.tail) else none
+    else none
   else none
 
 /-- `( int i = lo ; i < hi ; ++ i ) {` after the keyword `for`: index, bounds, rest -/
@@ -413,7 +417,7 @@ def eraseC (sc : Scalar) : Expr → PT
   | .bin op a b => .bin op (eraseC sc a) (eraseC sc b)
   | .sum args => leftNestPT .add "0" (eraseLC sc args)
   | .prod args => leftNestPT .mul "1" (eraseLC sc args)
-  | .call f dt args => .call (cMathName sc dt f) (eraseLC sc args)
+  | .call f _ args => .call (cMathName sc args f) (eraseLC sc args)
   | .idx arr _ ix => (eraseLC sc ix).foldl (fun acc i => .idx acc [i]) (.id arr)
   | .cond c t f => .cond (eraseC sc c) (eraseC sc t) (eraseC sc f)
 def eraseLC (sc : Scalar) : List Expr → List PT
@@ -430,8 +434,6 @@ def initPT (sc : Scalar) : List Nat → List Expr → PInit
   | d :: d' :: ds, vals =>
     let inner := (d' :: ds).foldr (· * ·) 1
     .braces ((chunks inner d vals).map (initPT sc (d' :: ds)))
-
-def tyWords (ty : String) : List String := (ty.splitOn " ").filter (· ≠ "")
 
 mutual
 /-- the statement tree the C text must parse back to: comments vanish, a StatementList splices,
@@ -482,6 +484,13 @@ def litShapeOK : Expr → Bool
   | .litI v => numShape (fmtInt (if v < 0 then -v else v))
   | _ => true
 
+/-- the printed name of a math function is an identifier, the formatter does not raise on the
+    call (complex scalar type, a SCALAR argument, no complex version of the function), and the
+    normal form of the arguments selects the same math table (`norm` preserves whether an argument
+    has dtype SCALAR as long as a MultiIndex has an integer global index; checked per tree) -/
+def callOK (sc : Scalar) (f : String) (args : List Expr) : Bool :=
+  validIdent (cMathName sc args f) && !callRaisesC sc f args && (scalarArgs (normL args) == scalarArgs args)
+
 mutual
 /-- Structural well-formedness for the C round trip: identifiers are identifiers, n-ary nodes and
     subscript/argument lists are non-empty, literal texts are number tokens, a MultiIndex is
@@ -496,7 +505,7 @@ def wfC (sc : Scalar) : Expr → Bool
   | .bin _ a b => wfC sc a && wfC sc b
   | .sum args => !args.isEmpty && wfLC sc args
   | .prod args => !args.isEmpty && wfLC sc args
-  | .call f dt args => validIdent (cMathName sc dt f) && !args.isEmpty && wfLC sc args
+  | .call f _ args => callOK sc f args && !args.isEmpty && wfLC sc args
   | .idx arr _ ix => validIdent arr && !ix.isEmpty && wfLC sc ix
   | .cond c t f => wfC sc c && wfC sc t && wfC sc f
 def wfLC (sc : Scalar) : List Expr → Bool
@@ -536,5 +545,43 @@ def roundtripExprC (sc : Scalar) (e : Expr) : Bool × Option PT × PT :=
   let got := parseExprC (lexC (fmtExprC sc e))
   let want := eraseC sc (norm e)
   (got == some want, got, want)
+
+/-! ## well-formed statements -/
+
+/-- left-hand sides the generators emit: a symbol or an array access -/
+def isLvalue : Expr → Bool
+  | .sym .. | .idx .. => true
+  | _ => false
+
+/-- numeric literal (the entries of an `ArrayDecl` value table) -/
+def isLit : Expr → Bool
+  | .litF .. | .litI .. => true
+  | _ => false
+
+/-- the text has no line break (it is printed inside a `//` / `#` comment line) -/
+def noNL (s : String) : Bool := !s.toList.contains '\n'
+
+mutual
+/-- Structural well-formedness of statements for the C round trip: assignments have a symbol or an
+    array access on the left; declared names and loop indices are identifiers; declared types are
+    not `DataType.NONE` (the formatter raises); array initialisers are numeric literals; section
+    names and input/output names contain no line break (they are printed in `//` comments);
+    all expressions are well-formed (`wfC`). A comment's text is arbitrary. -/
+def wfS (sc : Scalar) : Stmt → Bool
+  | .assign l r => isLvalue l && wfC sc l && wfC sc r
+  | .addAssign l r => isLvalue l && wfC sc l && wfC sc r
+  | .vdecl n dt v => validIdent n && (cTypeName sc dt).isSome && wfC sc v
+  | .adecl n dt _ _ vals =>
+    validIdent n && (cTypeName sc dt).isSome
+      && (match vals with | none => true | some vs => vs.all (fun v => isLit v && wfC sc v))
+  | .forRange i lo hi body => validIdent i && wfC sc lo && wfC sc hi && wfSL sc body
+  | .comment _ => true
+  | .block ss => wfSL sc ss
+  | .sect name decls stmts inp out _ =>
+    noNL name && inp.all noNL && out.all noNL && wfSL sc decls && wfSL sc stmts
+def wfSL (sc : Scalar) : List Stmt → Bool
+  | [] => true
+  | s :: ss => wfS sc s && wfSL sc ss
+end
 
 end Ffcx.LNodes.Fmt
